@@ -150,7 +150,8 @@ class C08(Prop):
             self.phases.mark("extra checks")
         budget = rc.ExtraBudget(tier, 40.0)
         # one representative of everything first, optional repetitions / reproductions while time is left
-        res = [termios_check(tier), real_findings(tier, budget), real_soak(tier, budget)]
+        res = [termios_check(tier), real_findings(tier, budget), real_death_after_exit(tier),
+               real_soak(tier, budget)]
         if self.phases:
             self.phases.mark("end")
             res.append(self.phases.entry())
@@ -360,6 +361,76 @@ def with_promise_local():
             outer._finish = finish
             return Managed()
     return L
+
+
+class Tripwire:
+    """watcher that objects to one particular word of the output"""
+
+    def submit(self, stream):
+        if "TRIGGER" in stream:
+            from invoke.exceptions import WatcherError
+            raise WatcherError("saw TRIGGER")
+        return []
+
+
+class BrokenSink:
+    def write(self, text):
+        raise RuntimeError("sink is broken")
+
+    def flush(self):
+        pass
+
+
+def real_death_after_exit(tier):
+    """real children, the order fixed by the command itself: the shell exits after 0.15 s (after the first poll), a background job that
+    inherited its stdout speaks up 0.2 s later and a worker dies of that -- i.e. the worker dies AFTER the
+    command's process has ended.  The wait loop's pause (public Runner.input_sleep) is 0.6 s, so normally
+    both fall into the same pause; whichever way the polls fall, the child must have been reaped when run()
+    raises (a poll between the two events sees the exit and reaps as well)."""
+    from invoke.runners import Local
+
+    class SlowPoll(Local):
+        input_sleep = 0.6
+
+    CMD = "sleep 0.15; (sleep 0.2; printf TRIGGER) &"
+
+    fails, evals = [], 0
+    scen = [("watcher error", {"watchers": [Tripwire()], "hide": True}, "Failure"),
+            ("failing out_stream.write", {"out_stream": BrokenSink()}, "ThreadException")]
+    for rep_ in range(1 if tier == "quick" else 5):
+        for name, kw, want in scen:
+            evals += 1
+            case = {"cmd": CMD, "worker_death": name, "input_sleep": 0.6}
+            bad = None
+            # the order "exit, then death" is the command's own (0.2 s apart); a machine so overloaded that the
+            # shell is held up longer than that between starting the job and exiting would reverse it (and a
+            # poll in between is then F-C08d): a failure counts only if it shows in three attempts out of three
+            for attempt in range(3):
+                r = rc.run_real(CMD, runner_cls=SlowPoll, in_stream=False, bound=15, **kw)
+                st = r["child_state"]
+                if st == "Z" and r.get("pid"):
+                    try:
+                        os.waitpid(r["pid"], os.WNOHANG)
+                    except OSError:
+                        pass
+                if r["hang"]:
+                    bad = "did not end within 15 s"
+                elif r["outcome"] != want:
+                    bad = "outcome %s, expected %s" % (r["outcome"], want)
+                elif st is not None:
+                    bad = ("the command had ended before the worker died, yet run() raised %s without reaping "
+                           "it: child %s in state %s afterwards (3 attempts out of 3)" % (r["outcome"], r["pid"], st))
+                else:
+                    bad = None
+                r.pop("runner", None)
+                if bad is None or r["hang"]:
+                    break
+            if bad:
+                fails.append({"case": case, "what": bad})
+    return {"name": "real-death-after-exit", "evaluations": evals, "failures": fails,
+            "note": "real Local runs (no pty), input_sleep 0.6 s: shell exits, background job triggers a watcher "
+                    "error / a failing out_stream.write 0.2 s later; outcome reported and /proc/<pid>/stat shows "
+                    "no zombie afterwards"}
 
 
 def real_soak(tier, budget):
